@@ -30,7 +30,7 @@ func (t *tracer) replay(re *process.RuntimeEnvironment, sched [][]int, d time.Du
 func dumpProgram(procs []*process.Process, env *process.GlobalEnvironment) interface{} { return nil }
 
 func (t *tracer) collect() ([]Ev, int) { return nil, 0 }
-func execTraced(t *tracer, re *process.RuntimeEnvironment, procs []*process.Process, sched [][]int, sub *process.SubscriberInfo) (int, string) {
+func execTraced(t *tracer, re *process.RuntimeEnvironment, procs []*process.Process, sched [][]int, plan []PlanStep, sub *process.SubscriberInfo) (int, string) {
 	return -1, ""
 }
 
